@@ -45,41 +45,94 @@ def rule_w1(repo, col):
                        "found return %s under %s" % (kind, want, val, test), construct="def add_atom: weight %s row" % kind, function="LogicFormula.add_atom")
 
 
+class _Unknown(Exception):
+    pass
+
+
+def _sym(e, scen, node, tgt):
+    """Evaluate an expression over the sign domain: ('k', s) the result node or its negation, ('V', s) the stored value or its
+    negation.  scen = (has_table, sign, present)."""
+    has_table, sign, present = scen
+    if isinstance(e, ast.Name) and e.id == node:
+        return ("k", sign)
+    if isinstance(e, ast.UnaryOp) and isinstance(e.op, ast.USub):
+        k, sg = _sym(e.operand, scen, node, tgt)
+        return (k, -sg)
+    if isinstance(e, ast.Call):
+        d = dotted(e.func)
+        if d == "abs" and len(e.args) == 1:
+            k, sg = _sym(e.args[0], scen, node, tgt)
+            return (k, 1)
+        if d in ("%s.negate" % tgt, "self.negate") and len(e.args) == 1:
+            k, sg = _sym(e.args[0], scen, node, tgt)
+            return (k, -sg)
+        if d == "%s.lookup_evidence.get" % tgt and len(e.args) in (1, 2):
+            key = _sym(e.args[0], scen, node, tgt)
+            if has_table and present and key == ("k", 1):
+                return ("V", 1)
+            if len(e.args) == 2:
+                return _sym(e.args[1], scen, node, tgt)
+            raise _Unknown("get without default")
+    if isinstance(e, ast.Subscript) and norm(e.value) == "%s.lookup_evidence" % tgt:
+        key = _sym(e.slice, scen, node, tgt)
+        if has_table and present and key == ("k", 1):
+            return ("V", 1)
+        return ("KeyError", 0)
+    raise _Unknown(norm(e))
+
+
+def _atom(src, scen, node, tgt):
+    has_table, sign, present = scen
+    e = ast.parse(src, mode="eval").body
+    if isinstance(e, ast.Call) and dotted(e.func) == "hasattr" and norm(e.args[0]) == tgt:
+        return has_table
+    if isinstance(e, ast.Compare) and len(e.ops) == 1 and isinstance(e.ops[0], ast.In) and norm(e.comparators[0]) == "%s.lookup_evidence" % tgt:
+        return has_table and present and _sym(e.left, scen, node, tgt) == ("k", 1)
+    if isinstance(e, ast.Compare) and len(e.ops) == 1 and isinstance(e.ops[0], (ast.Lt, ast.Gt)) and isinstance(e.comparators[0], ast.Constant) and e.comparators[0].value == 0:
+        k, sg = _sym(e.left, scen, node, tgt)
+        if k != "k":
+            raise _Unknown(src)
+        return sg < 0 if isinstance(e.ops[0], ast.Lt) else sg > 0
+    if isinstance(e, ast.Compare) and len(e.ops) == 1 and isinstance(e.ops[0], ast.Is) and isinstance(e.comparators[0], ast.Constant) and e.comparators[0].value is None:
+        _sym(e.left, scen, node, tgt)
+        return False
+    # truthiness of a node expression: probabilistic nodes are non-zero
+    v = _sym(e, scen, node, tgt)
+    return v[0] in ("k", "V")
+
+
 def rule_w2(repo, col):
     f = repo.func("problog.engine_stack", "StackBasedEngine.propagate_evidence")
     m = f.module
     node = f.params[-1]
     tgt = "target"
     paths = dtable.extract(f.node)
-    table = {}
-    for p in paths:
-        if p.end != "return":
-            continue
-        conds = dict((s, t) for s, t, _ in p.conds)
-        has = conds.get("hasattr(%s, 'lookup_evidence')" % tgt)
-        direct = conds.get("%s in %s.lookup_evidence" % (node, tgt))
-        negk = conds.get("%s.negate(%s) in %s.lookup_evidence" % (tgt, node, tgt))
-        if has is False:
-            table["no-table"] = p.value
-        elif direct:
-            table["direct"] = p.value
-        elif direct is False and negk:
-            table["negated"] = p.value
-        elif direct is False and negk is False:
-            table["miss"] = p.value
-    want = {
-        "no-table": node,
-        "direct": "%s.lookup_evidence[%s]" % (tgt, node),
-        "negated": "%s.negate(%s.lookup_evidence[%s.negate(%s)])" % (tgt, tgt, tgt, node),
-        "miss": node,
-    }
-    for k, w in want.items():
-        got = table.get(k)
-        if got is None:
-            raise AnalysisError("propagate_evidence: row %r of the lookup table not found (%s)" % (k, table))
-        col.decide("W2", m, f.node, got == w, "propagate_evidence %s -> %s" % (k, w),
-                   "propagate_evidence, case %r: expected %s, found %s (a node fixed by evidence propagation would get the wrong sign or a stale value)" % (k, w, got),
-                   construct="def propagate_evidence: row %s" % k, function="StackBasedEngine.propagate_evidence")
+    bad = None
+    n = 0
+    try:
+        for has_table in (False, True):
+            for sign in (1, -1):
+                for present in ((False, True) if has_table else (False,)):
+                    scen = (has_table, sign, present)
+                    n += 1
+                    fe = [p for p in paths if all(_atom(s_, scen, node, tgt) == t for s_, t, _ in p.conds)]
+                    if len(fe) != 1:
+                        raise AnalysisError("propagate_evidence: %d feasible paths in scenario %s" % (len(fe), scen))
+                    p = fe[0]
+                    if p.end != "return":
+                        bad = bad or "scenario %s: the function does not return a node" % (scen,)
+                        continue
+                    got = _sym(ast.parse(p.value, mode="eval").body, scen, node, tgt)
+                    want = ("V", sign) if (has_table and present) else ("k", sign)
+                    if got != want:
+                        names = {("k", 1): "the node itself", ("k", -1): "the node itself (a negative literal)", ("V", 1): "the propagated value", ("V", -1): "the negation of the propagated value"}
+                        desc = "%s literal, %s" % ("positive" if sign > 0 else "negative", "atom fixed by evidence propagation" if (has_table and present) else "atom not fixed")
+                        bad = bad or "for a %s the result must be %s, but the function returns %s" % (desc, names.get(want, want), names.get((got[0], got[1]) if got[0] != "k" else ("k", 1 if got[1] == sign else -1), got))
+    except _Unknown as e:
+        raise AnalysisError("propagate_evidence: expression outside the sign domain: %s" % e)
+    col.decide("W2", m, f.node, bad is None, "propagate_evidence returns sign(literal) * propagated value in all %d scenarios" % n,
+               "propagate_evidence: %s (a goal whose ground node is a negated literal of an atom fixed by evidence gets the wrong truth value)" % bad,
+               construct="def propagate_evidence: sign table", function="StackBasedEngine.propagate_evidence")
 
 
 def rule_w3(repo, col):
